@@ -123,14 +123,36 @@ def lab(file, func):
     return "(%s, %s)" % (L.s(file.rsplit("/", 1)[1]), L.s(func))
 
 
-def run_case(ctx, nthreads, max_events):
+def deep_trace(rng, depth):
+    """Recursion far deeper than any fixed bound on the pending stack: every invocation opens a context."""
+    file, func = FUNCS[0]
+    out = []
+    for k in range(1, depth + 1):
+        out.append(("call", file, func, 1, k, None))
+        if rng.random() < 0.3:
+            out.append(("line", file, func, 2, k, None))
+    for k in range(depth, 0, -1):
+        out.append(("return", file, func, 4, k, "ret-%d" % k))
+    return out
+
+
+def run_case(ctx, nthreads, max_events, deep=0):
     rng = ctx.rng
     world = e2.World(logger=False, spans=rng.choice([1, 1, 2]), metrics=0)
     world.clear_pending()
     trigs, tdesc = gen_triggers(rng)
+    if deep:
+        from deep.api.tracepoint.trigger import LocationAction, Trigger, FunctionLocation, Location
+        file, func = FUNCS[0]
+        kind = rng.choice(["span", "mcap"])
+        conf = {"fire_count": "-1", "fire_period": "0"}
+        act = (LocationAction("tp1", None, dict(conf, span="x"), LocationAction.ActionType.Span) if kind == "span" else
+               LocationAction("tp1", None, dict(conf, frame_type="no_frame", watches=[], stage="method_capture"), LocationAction.ActionType.Snapshot))
+        trigs = [Trigger(FunctionLocation(file.rsplit("/", 1)[1], func, Location.Position.START), [act])]
+        tdesc = [dict(tp="tp1", at="%s:%s()" % (file.rsplit("/", 1)[1], func), kind=kind, fire_count="-1", recursion_depth=deep)]
     world.install(trigs)
     workers = [Worker(world) for _ in range(nthreads)]
-    traces = [gen_trace(rng, max_events) for _ in range(nthreads)]
+    traces = [deep_trace(rng, deep) if deep else gen_trace(rng, max_events) for _ in range(nthreads)]
     frames = [dict() for _ in range(nthreads)]          # per thread: frame key -> frame object
     live = [[] for _ in range(nthreads)]                 # per thread: keys of running invocations
     pos = [0] * nthreads
@@ -200,6 +222,13 @@ def run_case(ctx, nthreads, max_events):
                 fails.append(("completed-by-inner-invocation",
                               "context %d opened by invocation %d of %s() was completed by the %s event of the nested "
                               "invocation %d of the same name" % (cid, okey, func, kind, key)))
+        # ---- a context that left the pending stack was COMPLETED (its deferred snapshots sent, its spans closed), not dropped
+        due_snaps = sum(1 for c in gone for cb in c._CallbackContext__callbacks if type(cb).__name__ == "DeferredSnapshotActionCallback")
+        got_snaps = sum(1 for what, _tp, _id, _p in world.log[log0:] if what == "snapshot")
+        if got_snaps < due_snaps:
+            fails.append(("dropped-uncompleted", "%d context(s) left the pending stack at a %s event (stack depth %d) but only %d of their %d "
+                          "deferred snapshots were sent: pending work was dropped without being completed" % (
+                              len(gone), kind, len(before), got_snaps, due_snaps)))
         # ---- oracle on the recorders: spans closed at this event belong to the contexts completed at this event
         for what, tp, ident, payload in world.log[log0:]:
             if ident != workers[t].ident:
@@ -263,7 +292,7 @@ def run(ctx):
                 "files with same-named nesting to depth 5, lines, caught and propagating exceptions, returns, several "
                 "outermost calls per thread) through synthetic frames, interleaved at event granularity in a generated order; "
                 "tracepoints: method span / method capture per function, line span / line capture per line, fire_count in "
-                "{-1,1,2,3}, 1-2 span processors. Non-trivial: at least one context opened and nested calls present.")
+                "{-1,1,2,3}, 1-2 span processors; plus recursion to depth 150-600 with a context per invocation. Non-trivial: at least one context opened and nested calls present.")
     ctx.assumptions = [
         "per-thread traces are well formed (the grammar CPython delivers: call (line | exception | nested)* return)",
         "contexts are matched by file and function NAME (the code's rule); an early completion by a same-named nested "
@@ -274,6 +303,11 @@ def run(ctx):
     n = 600 if ctx.thorough else 90
     for i in range(n):
         ls, desc = run_case(ctx, ctx.rng.choice([1, 1, 2, 3]), ctx.rng.choice([12, 30, 60]))
+        for x in ls:
+            lits.append(x)
+            cj.append(desc)
+    for depth in ([70, 150, 300, 600] if ctx.thorough else [150, 300]):
+        ls, desc = run_case(ctx, 1, 0, deep=depth)
         for x in ls:
             lits.append(x)
             cj.append(desc)
